@@ -105,6 +105,11 @@ def nesting(r):
         out.append(("long-assign-%d" % n, "int main() { int a = 1; a" + " = a" * n + "; return 0; }\n"))
         out.append(("deep-lambda-%d" % n, prog("int func(int q) { return " * min(n, 250) + "1" + "; }" * min(n, 250))))
         out.append(("deep-macro-%d" % n, "".join("#define M%d M%d\n" % (i, i + 1) for i in range(min(n, 400))) + "#define M%d 1\nint main() { return M0; }\n" % min(n, 400)))
+    # regression inputs of repaired defects (and close variants)
+    out.append(("regress-empty-type-params-0", "typedef MyInt = int;\nMyInt<int> f<>(int x) { return x; }\nint main() { return 0; }\n"))
+    out.append(("regress-empty-type-params-1", "int f<>(int x) { return x; }\nint main() { return f<>(1); }\n"))
+    out.append(("regress-empty-type-params-2", "struct Box<> { int v; };\nint main() { Box<> b; return 0; }\n"))
+    out.append(("regress-empty-type-params-3", "Box<int> g<>() { }\n"))
     return [(k, p) for k, p in out if len(p.encode("utf-8")) <= 8192]
 
 
